@@ -41,6 +41,7 @@ void validWork(Gen& G, const std::vector<int>& pool, int n)
 Program genC16(Rand& R, int tier)
 {
     Gen G(R, tier, "C16");
+    G.randomCt(R.chance(50));
     int d0 = G.addDomain(true, 3, tier ? 60 : 30);
     int d1 = G.addDomain(false, 3, 64);
     std::vector<int> f0 = mixedForests(G, d0, true);
@@ -94,6 +95,11 @@ Program genC16(Rand& R, int tier)
             // valid work inside the reordered forest as well
             if (R.chance(50)) G.emitOp(isB ? bo : io, {twin});
             validWork(G, f0, R.range(1, 3));
+            continue;
+        }
+        if (R.chance(6)) {
+            G.emit({"misuse", "doubleinit"});
+            validWork(G, f0, R.range(2, 5));
             continue;
         }
         if (k < 30) G.emit({"misuse", "binop", op, Gen::num(a), Gen::num(b), Gen::num(all[R.below(uint32_t(all.size()))])});
